@@ -544,8 +544,9 @@ func runC(cs *fw.Case, idx int, directed bool) {
 	if judge(cs, pb, cfg) {
 		cs.Nontrivial(pb.routine, pb.opts, p.order, p.mode, fmt.Sprint(pb.in[0].v), p.varOf)
 		cs.Cover(fmt.Sprintf("set:c-shape:%s:n=%d", ent.name, n))
-		if cs.Index < 22 {
-			cs.Sample(map[string]any{"routine": ent.name, "n": n, "order": order, "activation": p.mode, "variables": p.n, "class": pb.class})
+		if n >= 3 && cs.Index < 400 {
+			cs.Sample(map[string]any{"routine": ent.name, "n": n, "order": order, "activation": p.mode, "variables": p.n, "class": pb.class,
+				"first_input": fmtVec(pb.in[0].v), "variable_of_entry": p.varOf})
 		}
 	}
 }
@@ -826,4 +827,7 @@ func runHelpers(cs *fw.Case, idx int) {
 		}
 	}
 	cs.Nontrivial("helpers", helper, cfgLabel, class, fmtVec(x), f.b, f.c, f.d, f.pqs)
+	if m >= 3 {
+		cs.Sample(wit)
+	}
 }
